@@ -424,6 +424,28 @@ def r32_fold(text, fn, log):
         text = text[:mk.start()] + new + text[cl + 1:]
 
 
+
+# ------------------------------------------------------------------ R33: enumerate().map() over a slice iterator
+_R33 = re.compile(r'\b(\w+)\.iter\(\)\.enumerate\(\)\.map\(\s*\|\s*\(\s*(\w+)\s*,\s*(\w+)\s*\)\s*\|')
+
+
+def r33_enumerate_map(text, fn, log):
+    """`S.iter().enumerate().map(|(i, v)| BODY)` yields BODY for i = 0, 1, ... with v = &S[i] (definition of slice::Iter and
+    Enumerate); it is rewritten to `(0..S.len()).map(|i| { let v = &S[i]; BODY })`, which Verus supports."""
+    while True:
+        m = mask(text)
+        mk = _R33.search(m)
+        if not mk:
+            return text
+        op = m.index('(', m.index('.map', mk.start()))
+        cl = match_close(m, op)
+        s_, i, v = mk.group(1), mk.group(2), mk.group(3)
+        body = text[mk.end():cl].strip()
+        new = '(0..%s.len()).map(|%s| { let %s = &%s[%s]; %s })' % (s_, i, v, s_, i, body)
+        log.add('R33', fn, text[mk.start():cl + 1], new)
+        text = text[:mk.start()] + new + text[cl + 1:]
+
+
 # ------------------------------------------------------------------ R7: vec! expansions
 def r7_vec(text, fn, log):
     while True:
